@@ -19,7 +19,7 @@ def fh(x):
 
 class Rec:
     __slots__ = ("it", "slot", "event", "track", "parent", "nsteps", "action", "particle",
-                 "step", "edep", "pre", "post", "vmid", "vpost", "vnudge", "status")
+                 "step", "edep", "pre", "post", "vmid", "vpost", "vnudge", "status", "limit", "prestatus")
 
 
 class Point:
@@ -76,6 +76,8 @@ def parse_runs(out, specs):
             r.step = fh(t[9]); r.edep = fh(t[10])
             r.pre = _point(t[11:20]); r.post = _point(t[20:29])
             r.vmid, r.vpost, r.vnudge, r.status = int(t[29]), int(t[30]), int(t[31]), int(t[32])
+            r.limit = fh(t[33]) if len(t) > 33 else float("nan")
+            r.prestatus = int(t[34]) if len(t) > 34 else -1
             cur.recs.append(r)
         elif line.startswith("PART"):
             t = line.split()
@@ -200,7 +202,8 @@ def rec_dict(run, r):
     return dict(iter=r.it, slot=r.slot, event=r.event, track=r.track, parent=r.parent, nsteps=r.nsteps,
                 action=run.actions.get(r.action, r.action), particle=run.parts.get(r.particle, ("?",))[0],
                 step=r.step, edep=r.edep, pre=pt(r.pre), post=pt(r.post),
-                located=dict(mid=r.vmid, post=r.vpost, nudged=r.vnudge), status=r.status)
+                located=dict(mid=r.vmid, post=r.vpost, nudged=r.vnudge), status=r.status,
+                limit_after_pre_step=r.limit, status_after_pre_step=r.prestatus)
 
 
 # ---------------------------------------------------------------------------
@@ -308,3 +311,101 @@ def ledger_check(run):
                              dict(record=rec_dict(run, r))))
                 break
     return viol, stats
+
+
+# ---------------------------------------------------------------------------
+# C05 oracle: step-stream clauses on consecutive records of one track
+
+def dist(a, b):
+    return math.sqrt(sum((x - y) ** 2 for x, y in zip(a, b)))
+
+
+F5_SIGNATURE = "alloc-failure-step-length-zero"
+
+
+def stream_check(run):
+    """returns (violations [(kind, what, detail, signature)], stats)"""
+    viol = []
+    st = dict(records=0, pairs=0, boundary_steps=0, volume_changes=0, zero_steps=0,
+              zero_steps_stopped=0, failure_records=0, failure_zero_with_displacement=0,
+              located=0, max_disp_excess=0.0)
+    bnd = run.act("geo-boundary")
+    tcut = run.act("tracking-cut")
+    fail = run.act("physics-failure")
+    tr = tracks_of(run)
+
+    def add(kind, what, recs, sig=None):
+        viol.append((kind, what, dict(records=[rec_dict(run, r) for r in recs]), sig))
+
+    for key, rs in tr.items():
+        for k, r in enumerate(rs):
+            st["records"] += 1
+            name = "event %d track %d step %d" % (key[0], key[1], r.nsteps)
+            errored = (r.prestatus == 3) or (r.action == tcut and r.pre.vol < 0)
+            # --- within one record
+            if r.post.t < r.pre.t:
+                add("time-decreased", "%s: time %r -> %r" % (name, r.pre.t, r.post.t), [r])
+            if r.post.E > r.pre.E:
+                add("energy-increased", "%s: kinetic energy %r -> %r" % (name, r.pre.E, r.post.E), [r])
+            if not (r.step >= 0):
+                add("negative-step", "%s: step length %r" % (name, r.step), [r])
+            d = dist(r.pre.pos, r.post.pos)
+            scale = max(1.0, max(abs(x) for x in r.pre.pos + r.post.pos))
+            if r.action == fail:
+                st["failure_records"] += 1
+            if r.step == 0 and not errored:
+                st["zero_steps"] += 1
+                if r.pre.E == 0:
+                    st["zero_steps_stopped"] += 1
+                else:
+                    sig = F5_SIGNATURE if r.action == fail else None
+                    if sig and d > 0:
+                        st["failure_zero_with_displacement"] += 1
+                    add("zero-step-not-stopped",
+                        "%s: step length 0 reported for a moving particle (E=%r, action %s, displacement %r)"
+                        % (name, r.pre.E, run.actions.get(r.action), d), [r], sig)
+            if not errored and r.step > 0 or d > 0:
+                excess = d - r.step
+                st["max_disp_excess"] = max(st["max_disp_excess"], excess)
+                if excess > 16 * EPS * scale + 4 * EPS * r.step:
+                    sig = F5_SIGNATURE if (r.action == fail and r.step == 0) else None
+                    if not (sig and r.pre.E != 0 and r.step == 0):   # already reported above
+                        add("step-shorter-than-displacement",
+                            "%s: step length %r < displacement %r" % (name, r.step, d), [r], sig)
+            if not errored and r.limit == r.limit and r.step > r.limit:
+                add("step-exceeds-limit", "%s: step length %r > physics limit %r chosen in pre-step" % (name, r.step, r.limit), [r])
+            if r.status < 2 or (r.prestatus >= 0 and r.status < r.prestatus):
+                add("status-reverted", "%s: status after pre-step %d, after the step %d" % (name, r.prestatus, r.status), [r])
+            # volume only changes on boundary steps
+            if r.action == bnd:
+                st["boundary_steps"] += 1
+            if r.pre.vol != r.post.vol:
+                st["volume_changes"] += 1
+                if r.action != bnd:
+                    add("volume-changed-without-boundary", "%s: volume %d -> %d with action %s"
+                        % (name, r.pre.vol, r.post.vol, run.actions.get(r.action)), [r])
+            # reported volume contains reported position (fresh initialisation)
+            if not errored and r.step > 1e-5:
+                st["located"] += 1
+                if r.vmid >= -1 and r.vmid != r.pre.vol:
+                    add("pre-volume-wrong", "%s: step midpoint is in volume %d, reported pre-step volume %d" % (name, r.vmid, r.pre.vol), [r])
+                if r.action != bnd and r.vpost >= -1 and r.vpost != r.post.vol:
+                    add("post-volume-wrong", "%s: post point is in volume %d, reported %d" % (name, r.vpost, r.post.vol), [r])
+                if r.action == bnd and r.vnudge >= -1 and r.vnudge != r.post.vol:
+                    add("post-volume-wrong", "%s: just beyond the boundary is volume %d, reported %d" % (name, r.vnudge, r.post.vol), [r])
+            # --- consecutive records
+            if k + 1 < len(rs):
+                n = rs[k + 1]
+                st["pairs"] += 1
+                if r.status != 2:
+                    add("stepped-after-death", "%s: status %d but the track has a later record" % (name, r.status), [r, n])
+                    continue
+                nerr = (n.prestatus == 3)
+                if (n.pre.t != r.post.t or n.pre.pos != r.post.pos or n.pre.vol != r.post.vol or n.pre.E != r.post.E):
+                    add("steps-do-not-join", "%s: post (t=%r pos=%r vol=%d E=%r) != next pre (t=%r pos=%r vol=%d E=%r)"
+                        % (name, r.post.t, r.post.pos, r.post.vol, r.post.E, n.pre.t, n.pre.pos, n.pre.vol, n.pre.E), [r, n])
+                if n.it != r.it + 1:
+                    add("iteration-gap", "%s: recorded in iteration %d then %d" % (name, r.it, n.it), [r, n])
+                if not nerr and n.nsteps != r.nsteps + 1:
+                    add("step-count", "%s: step counter %d then %d" % (name, r.nsteps, n.nsteps), [r, n])
+    return viol, st
